@@ -13,21 +13,29 @@ Definition tout : Type := (Out * tag)%type.
 Definition tver (x : tout) : N := fst (snd x).
 Definition tserial (x : tout) : nat := snd (snd x).
 
-Variable m : method Src St Out.
-
 (* the same method, producing tagged outputs; recovery reads the untagged values *)
-Definition tagm (t : tag) : method Src St tout :=
+Definition tagm (m : method Src St Out) (t : tag) : method Src St tout :=
   {| target := target m;
      recover := fun src outs k c => recover m src (map fst outs) k c;
      step := fun src st i => let! p := step m src st i in Ok (fst p, (snd p, t)) |}.
 
 (* the n-th compute call on v *)
-Definition compute_tagged (compressed : bool) (src : Src) (dep : N) (max_from cap : nat) (serial : nat)
-  (v : vec tout) : vec tout * res eerr unit :=
-  compute_call (tagm (vv v + dep, serial)) compressed src dep max_from cap v.
+Definition compute_tagged (m : method Src St Out) (compressed : bool) (src : Src) (dep : N) (max_from cap : nat)
+  (serial : nat) (v : vec tout) : vec tout * res eerr unit :=
+  compute_call (tagm m (vv v + dep, serial)) compressed src dep max_from cap v.
 
+Definition push_tagged (v : vec tout) (os : list Out) : vec tout :=
+  hand_push v (map (fun o => (o, (cv v, O))) os).
+
+Variable m : method Src St Out.
+
+(* History alphabet.  A compute call may be made with a user closure that fails at index [fail]
+   (the call returns Err before its write: the values computed so far stay unwritten), and values
+   may be pushed by hand without a write: the caller presents them as results under the currently
+   recorded version, so they carry that version as their tag (and the serial of no call). *)
 Inductive vop :=
-| VCompute (src : Src) (dep : N) (max_from cap : nat)
+| VCompute (src : Src) (dep : N) (max_from cap : nat) (fail : option nat)
+| VPush (os : list Out)
 | VWrite
 | VReimport
 | VReimportOwn (own : N).
@@ -36,7 +44,9 @@ Definition vstate : Type := (vec tout * nat)%type.
 
 Definition vapply (compressed : bool) (s : vstate) (o : vop) : vstate :=
   match o with
-  | VCompute src dep mf cap => (fst (compute_tagged compressed src dep mf cap (snd s) (fst s)), S (snd s))
+  | VCompute src dep mf cap fail =>
+    (fst (compute_tagged (with_fail fail m) compressed src dep mf cap (S (snd s)) (fst s)), S (snd s))
+  | VPush os => (push_tagged (fst s) os, snd s)
   | VWrite => (write (fst s), snd s)
   | VReimport => (reimport (write (fst s)), snd s)
   | VReimportOwn own =>
